@@ -83,28 +83,41 @@ def readDs64 (f : Bytes) : Except Err (Ds64 × Nat) :=
   | .error e => .error e
   | .ok table => .ok (⟨riffSize, dataSize, table⟩, 20 + data.length)
 
-/-- `_read_chunks` with `_read_chunk_header` inlined.  `ds` is `some` for RF64/BW64 files.
-Every iteration that does not return advances the position by at least 8, so
+/-- result of `_read_chunk_header` -/
+inductive Hdr where
+  | eof                              -- `return None`
+  | badId                            -- `raise ValueError("found chunk header with invalid ID ...")`
+  | hdr (id : Bytes) (size : Nat)
+  deriving Repr
+
+/-- `_read_chunk_header` with the buffer at `pos`.  `ds` is `some` for RF64/BW64 files. -/
+def readChunkHeader (f : Bytes) (ds : Option Ds64) (pos : Nat) : Hdr :=
+  let d := readAt f pos 8
+  if d.length ≠ 8 then .eof else                               -- EOF
+  let id := d.take 4
+  let sz0 := fromLE (d.drop 4)
+  if !validId id then .badId else
+  -- correct chunkSize for rf64 and bw64 files
+  match ds with
+  | none => .hdr id sz0
+  | some d64 => .hdr id (if id = idData then d64.dataSize else (d64.lookup id).getD sz0)
+
+/-- `_read_chunks`.  Every iteration that does not return advances the position by at least 8, so
 `fuel = len(file) + 1` is never exhausted. -/
 def readChunks (f : Bytes) (ds : Option Ds64) : Nat → Nat → Table → List Warn → Except Err (Table × List Warn)
   | 0, _, _, _ => .error .fuel
   | fuel + 1, pos, t, w =>
-    let d := readAt f pos 8
-    if d.length ≠ 8 then .ok (t, w) else                       -- EOF
-    let id := d.take 4
-    let sz0 := fromLE (d.drop 4)
-    if !validId id then .error .badId else
-    let sz :=                                                   -- ds64 size substitution
-      match ds with
-      | none => sz0
-      | some d64 => if id = idData then d64.dataSize else (d64.lookup id).getD sz0
-    let t' : Table := (id, sz, pos) :: t
-    let e := pos + 8 + (sz + sz % 2)                            -- always skip an even number of bytes
-    if e > f.length then
-      if sz % 2 = 1 ∧ id = idData ∧ e = f.length + 1 then
-        readChunks f ds fuel e t' (w ++ [.dataPad])
-      else .error .chunkEnd
-    else readChunks f ds fuel e t' w
+    match readChunkHeader f ds pos with
+    | .eof => .ok (t, w)
+    | .badId => .error .badId
+    | .hdr id sz =>
+      let t' : Table := (id, sz, pos) :: t
+      let e := pos + 8 + (sz + sz % 2)                          -- always skip an even number of bytes
+      if e > f.length then
+        if sz % 2 = 1 ∧ id = idData ∧ e = f.length + 1 then
+          readChunks f ds fuel e t' (w ++ [.dataPad])
+        else .error .chunkEnd
+      else readChunks f ds fuel e t' w
 
 /-- Fields of the `FormatInfoChunk` the reader builds (`cbSize == 0` path). -/
 structure RFmt where
@@ -188,46 +201,60 @@ structure Parsed where
 def chunkData (f : Bytes) (t : Table) (id : Bytes) : Option Bytes :=
   (tlookup t id).map (fun e => readAt f (e.2 + 8) e.1)
 
-/-- `Bw64Reader(BytesIO(f))`, then the accessors. -/
-def readFile (f : Bytes) : Except Err (Parsed × List Warn) :=
+/-- the byte count `__len__` divides by the block alignment: `self._ds64.dataSize` if there is a ds64
+chunk, else `self._chunks[b'data'].size` -/
+def lenBytes (ds : Option Ds64) (dsz : Nat) : Nat :=
+  match ds with
+  | some d => d.dataSize
+  | none => dsz
+
+/-- The rest of `__init__` after `_read_chunks` (`_check_chunks`, `_read_fmt_chunk`, `_read_chna_chunk`,
+`seek(0)`), then the accessors, for file format id `ff`, ds64 chunk `ds`, chunk table `t` and the
+warnings `w` raised so far. -/
+def finishRead (f : Bytes) (ff : Bytes) (ds : Option Ds64) (t : Table) (w : List Warn) :
+    Except Err (Parsed × List Warn) :=
+  -- _check_chunks
+  match tlookup t idFmt, tlookup t idData with
+  | some (fsz, fpos), some (dsz, dpos) =>
+    match readFmt f fsz fpos with
+    | .error e => .error e
+    | .ok fm =>
+      let chnaR : Except Err (Option (List ChnaEntry) × List Warn) :=
+        match tlookup t idChna with
+        | none => .ok (none, [])
+        | some (_, cpos) =>
+          match readChna f cpos with
+          | .error e => .error e
+          | .ok (es, w) => .ok (some es, w)
+      match chnaR with
+      | .error e => .error e
+      | .ok (chna, w2) =>
+        let ba := fm.channels * fm.bits / 8
+        -- __len__
+        let frames := lenBytes ds dsz / ba
+        .ok (⟨ff, fm, frames, readAt f (dpos + 8) (frames * ba), chna,
+              chunkData f t idAxml, chunkData f t idBext⟩, w ++ w2)
+  | _, _ => .error .missingChunk
+
+/-- `_read_riff_chunk` and, for RF64/BW64, `_read_ds64_chunk`: format id, ds64 chunk, position of the
+first ordinary chunk header. -/
+def readHead (f : Bytes) : Except Err (Bytes × Option Ds64 × Nat) :=
   match readRiff f with
   | .error e => .error e
   | .ok ff =>
-    let dsr : Except Err (Option Ds64 × Nat) :=
-      if ff = idRF64 ∨ ff = idBW64 then
-        match readDs64 f with
-        | .error e => .error e
-        | .ok (d, p) => .ok (some d, p)
-      else .ok (none, 12)
-    match dsr with
-    | .error e => .error e
-    | .ok (ds, p) =>
-      match readChunks f ds (f.length + 1) p [] [] with
+    if ff = idRF64 ∨ ff = idBW64 then
+      match readDs64 f with
       | .error e => .error e
-      | .ok (t, w) =>
-        -- _check_chunks
-        match tlookup t idFmt, tlookup t idData with
-        | some (fsz, fpos), some (dsz, dpos) =>
-          match readFmt f fsz fpos with
-          | .error e => .error e
-          | .ok fm =>
-            let chnaR : Except Err (Option (List ChnaEntry) × List Warn) :=
-              match tlookup t idChna with
-              | none => .ok (none, [])
-              | some (_, cpos) =>
-                match readChna f cpos with
-                | .error e => .error e
-                | .ok (es, w) => .ok (some es, w)
-            match chnaR with
-            | .error e => .error e
-            | .ok (chna, w2) =>
-              let ba := fm.channels * fm.bits / 8
-              -- __len__
-              let frames := match ds with
-                | some d => d.dataSize / ba
-                | none => dsz / ba
-              .ok (⟨ff, fm, frames, readAt f (dpos + 8) (frames * ba), chna,
-                    chunkData f t idAxml, chunkData f t idBext⟩, w ++ w2)
-        | _, _ => .error .missingChunk
+      | .ok (d, p) => .ok (ff, some d, p)
+    else .ok (ff, none, 12)
+
+/-- `Bw64Reader(BytesIO(f))`, then the accessors. -/
+def readFile (f : Bytes) : Except Err (Parsed × List Warn) :=
+  match readHead f with
+  | .error e => .error e
+  | .ok (ff, ds, p) =>
+    match readChunks f ds (f.length + 1) p [] [] with
+    | .error e => .error e
+    | .ok (t, w) => finishRead f ff ds t w
 
 end Earverif.Bw64
